@@ -5,8 +5,10 @@ import (
 	"encoding/binary"
 	"encoding/hex"
 	"fmt"
+	"os/exec"
 	"runtime"
 	"strings"
+	"time"
 
 	"github.com/ipld/go-ipld-prime/codec/cbor"
 	"github.com/ipld/go-ipld-prime/codec/dagcbor"
@@ -27,7 +29,49 @@ import (
 // C10 — parsers of untrusted data are total and bounded.
 type c10 struct{}
 
-func init() { fw.Register(c10{}) }
+func init() {
+	fw.Register(c10{})
+	fw.RegisterAux("c10probe", c10GrowthProbe)
+}
+
+func fwSetMemLimit(b uint64) { fw.SetMemLimit(b) }
+
+// Orchestrate runs the batches, then the selector-growth probe in its own process.
+func (c10) Orchestrate(p *fw.Parent) error {
+	p.RunBatches()
+	cmd := exec.Command(p.ChildBinary(false), "-aux", "c10probe")
+	done := make(chan struct{})
+	var out []byte
+	var err error
+	go func() { out, err = cmd.CombinedOutput(); close(done) }()
+	timedOut := false
+	select {
+	case <-done:
+	case <-time.After(40 * time.Second):
+		cmd.Process.Kill()
+		<-done
+		timedOut = true
+	}
+	p.Count("selector_growth_probe_runs", 1)
+	if timedOut || err != nil {
+		why := "killed by the 40 s watchdog"
+		if !timedOut {
+			why = "died: " + fatalFirst(string(out))
+		}
+		p.AddDeviation(fw.Deviation{Sig: "C10:multi-edge-recursion-exponential-growth", Index: -1,
+			Detail: "walking R(none){|[., a{@}, a{@}, a{@}]} over a 16-deep one-child list under a 1.5 GiB address-space limit " + why})
+	}
+	return nil
+}
+
+func fatalFirst(s string) string {
+	for _, l := range strings.Split(s, "\n") {
+		if strings.HasPrefix(l, "fatal error") || strings.HasPrefix(l, "panic") || strings.HasPrefix(l, "runtime:") {
+			return l
+		}
+	}
+	return clipS(s, 200)
+}
 
 func (c10) ID() string { return "C10" }
 
